@@ -103,7 +103,7 @@ class C04(Sim):
             "seeded scheduler; distinct = distinct (mesh kinds, (operation, format, switches) sequence); non-trivial = >= 1 file saved or planted and >= 1 load or cross-read judged")
     FAULT_KINDS = ["lexical", "config_flip"]
     PROBES = ["wild_coordinates", "polygon_to_triangle_format", "attributes_roundtrip", "query_before_save", "resave_after_load", "stl", "hex", "export_edges_off",
-              "crlf", "comments", "exp_floats", "no_final_newline", "cross_read", "cross_write_load", "save_load"]
+              "crlf", "comments", "exp_floats", "no_final_newline", "cross_read", "cross_write_load", "save_load", "overwrite", "faceless_stl"]
     QUICK_RUNS = 2500
     THOROUGH_RUNS = 250000
     BLOCK = 25
@@ -224,7 +224,8 @@ class C04(Sim):
     def _fmt_ok(self, snap, fmt):
         """restrictions of the generator's domain (see ASSUMPTIONS)"""
         if fmt == "stl":
-            if not snap["faces"] or any(len(f) != 3 for f in snap["faces"]) or snap["cells"]:
+            # triangle surfaces, and meshes without any face (point clouds, polylines: the file then holds zero triangles)
+            if any(len(f) != 3 for f in snap["faces"]) or snap["cells"]:
                 return False
             return all(abs(x) < 1e30 and (x == 0 or abs(x) > 1e-30) for p in snap["vertices"] for x in p)
         return True
@@ -241,7 +242,11 @@ class C04(Sim):
             return {"c": c, "op": "query", "m": r.below(self._targets()), "which": r.choice(["border", "adjacency", "degree"])}
         fmt = r.choice(cfg["formats"])
         if c == "saver" or (c in ("loader", "xreader") and not self.files):
-            return {"c": "saver", "op": "save", "m": r.below(self._targets()), "fmt": fmt, "path": "/sim/f%d.%s" % (self.nfile, fmt)}
+            path = "/sim/f%d.%s" % (self.nfile, fmt)
+            old = sorted(p for p, f in self.files.items() if f["fmt"] == fmt and f["origin"] == "save")
+            if old and r.chance(0.25):
+                path = r.choice(old)  # overwrite a file written earlier: what was at the path before must not show through
+            return {"c": "saver", "op": "save", "m": r.below(self._targets()), "fmt": fmt, "path": path}
         if c == "loader":
             return {"c": c, "op": "load", "path": r.choice(sorted(self.files)), "keep": r.chance(0.3)}
         if c == "xreader":
@@ -263,11 +268,16 @@ class C04(Sim):
                 return False
             if op == "query":
                 return True
-            if ev["path"] in self.files:
+            if ev["path"] in self.files and (op == "plant" or self.files[ev["path"]]["fmt"] != ev["fmt"]):
                 return False
             return self._fmt_ok(self.snapshot(self._mesh(ev["m"])), ev["fmt"])
         if op in ("load", "xread"):
-            return ev["path"] in self.files and (op != "xread" or self.files[ev["path"]]["origin"] == "save")
+            if ev["path"] not in self.files:
+                return False
+            info = self.files[ev["path"]]
+            if op == "load" and info["fmt"] == "stl" and not info["expressed"]["faces"]:
+                return False  # (the C reader behind mouette aborts the interpreter on a zero-triangle STL: never handed to it)
+            return op != "xread" or info["origin"] == "save"
         return True
 
     # ------------------------------------------------------------------ expectations
@@ -380,12 +390,17 @@ class C04(Sim):
             kinds = self._kinds(snap)
             if ev["m"] >= len(self.meshes):
                 self.probes["resave_after_load"] += 1
+            overwrite = ev["path"] in self.files
+            if overwrite:
+                self.probes["overwrite"] += 1
+            nwrites = self.fs.writes
             o = call(M.mesh.save, m, ev["path"])
             ac = "%s/%s" % (fmt, kinds)
-            if not o.ok or ev["path"] not in self.fs.files:
+            if not o.ok or ev["path"] not in self.fs.files or self.fs.writes == nwrites:
                 if not o.ok:
                     self.exc_violation("every-mesh-every-writable-format", "save", o, ac, "save(%s mesh, %r) raised" % (kinds, ev["path"]))
-                self.violation("every-mesh-every-writable-format", "save", "wrong_value", "no-file", ac, "save(%r) wrote nothing" % ev["path"])
+                self.violation("every-mesh-every-writable-format", "save", "wrong_value", "no-file", ac + ("/overwrite" if overwrite else ""),
+                               "save(%s mesh, %r) wrote nothing%s" % (kinds, ev["path"], " (the file written earlier is still there)" if overwrite else ""))
             self.nfile += 1
             ex = self._expressed(fmt, snap, "save")
             if fmt == "obj" and not self.sw["export_edges_in_obj"]:
@@ -396,6 +411,8 @@ class C04(Sim):
             self.seq.append("save:" + fmt)
             if fmt == "stl":
                 self.probes["stl"] += 1
+                if not snap["faces"]:
+                    self.probes["faceless_stl"] += 1
             if any(len(f) > 4 for f in snap["faces"]) and fmt in ("mesh", "stl"):
                 self.probes["polygon_to_triangle_format"] += 1
             if self._pending_flip:
